@@ -1,9 +1,10 @@
 """C12 - signatures do not depend on incidental numbering or process state.
 
 Events: the signatures of one *recipe* (a straight-line program of public-API calls, data) built in
-several child processes with different histories: fresh counters, every global creation counter
-pre-set so that the recipe's own objects straddle 9->10, 99->100, 999->1000, unrelated objects created
-in between, different PYTHONHASHSEED, different order of the other forms built in the same process.
+several processes with different histories: fresh counters, every global creation counter pre-set so
+that the recipe's own objects straddle 9->10, 99->100, 999->1000, unrelated objects created in
+between, different PYTHONHASHSEED, different interpreter start, different order of the other forms
+built in the same process.
 
 Oracle: equality of every observed signature with the one of the reference history (fresh counters,
 PYTHONHASHSEED=0).  Diagnostics (never deciding): relative structure (vf.canon, mode 'rel') and the
@@ -13,72 +14,83 @@ terminal hash data name the mechanism of a difference.
 import json
 import os
 import random
+import shutil
 import subprocess
 import sys
+import tempfile
 
 from .. import REPO_DIR, VERIF_DIR
 from ..c12_procs import COUNTED, HarnessError, gen_conf, gen_recipe, recipe_digest
 
 LEVEL = "exploration"
 ENGINE = "procs"
-TECHNIQUE = "differential runtime monitoring over process histories: one recipe built by the real API in many child processes, signatures compared"
+TECHNIQUE = "differential runtime monitoring over process histories: one recipe built by the real API in many processes, signatures compared"
 LEVEL_TEXT = (
     "Randomly generated recipes (forms with >=3 constants / coefficients / geometric quantities / variables of the "
     "same class in one commutative operand list, index notation, two meshes, several integrals, derivative) are built "
-    "through the public API in child processes whose creation counters straddle digit boundaries, with unrelated "
-    "objects created in between, under several hash seeds and build orders; Form.signature(), the signature after "
-    "renumber_indices, the expression signatures and the signature of compute_form_data(...).preprocessed_form must "
-    "equal those of the fresh-counter process."
+    "through the public API in separate processes whose creation counters straddle digit boundaries, with unrelated "
+    "objects created in between, under several hash seeds, interpreter starts and build orders; Form.signature(), the "
+    "signature after renumber_indices, the expression signatures and the signature of "
+    "compute_form_data(...).preprocessed_form must equal those of the fresh-counter process."
 )
 LEVEL_NOTE = (
-    "trusted: the recipe interpreter (same data in every process), json/subprocess; counters are pre-set through the "
-    "class attributes named in the property anchors and verified through .count()/.ufl_id(); sampled, not exhaustive"
+    "trusted: the recipe interpreter (same data in every process), json/subprocess/fork; counters are pre-set through "
+    "the class attributes named in the property anchors and verified through .count()/.ufl_id(); sampled, not exhaustive"
 )
 RULE = (
     "case = batch of random recipes x list of process histories; a (recipe, history) pair is distinct by (program "
-    "digest, history index) and non-trivial when the history differs from the reference in hash seed, build order, "
-    "interleaved foreign objects, or the recipe's own objects of some counted class received counts on both sides of a "
-    "power of ten"
+    "digest, history index) and non-trivial when the history differs from the reference in hash seed, interpreter "
+    "start, build order, interleaved foreign objects, or the recipe's own objects of some counted class received "
+    "counts on both sides of a power of ten"
 )
 ASSUMPTIONS = [
     "'same form built the same way' = the same recipe program interpreted by the same interpreter; relative creation order of the recipe's own objects is kept in every history",
     "a build or an analysis that raises with the same exception type in both histories is counted as rejected, not judged",
     "compute_form_data is called with default options (and with pull-backs, scaling and geometry lowering for half of the recipes)",
+    "histories that share a hash seed are forked from one driver process after `import ufl` (separate processes, same interpreter start); other interpreter starts are covered by the additional driver processes",
 ]
-BUDGET = {"quick": 70, "thorough": 420}
+BUDGET = {"quick": 70, "thorough": 400}
 NCASES = {"quick": 32, "thorough": 64}
-BATCH = {"quick": 8, "thorough": 24}
+BATCH = {"quick": 10, "thorough": 24}
 EVAL_COUNTER = "pairs_compared"
 FLOORS = {
     "quick": {
-        "recipes": 150,
-        "pairs_compared": 2000,
-        "pairs_straddling_power_of_ten": 600,
-        "pairs_other_hashseed": 300,
-        "pairs_with_foreign_objects": 300,
-        "pairs_other_build_order": 100,
-        "sig_compared": 2000,
-        "sig_fd_compared": 1500,
-        "straddle:Constant": 200,
-        "straddle:Mesh": 30,
-        "straddle:Index": 100,
-        "straddle:Label": 30,
-        "straddle:Coefficient": 200,
+        "recipes": 250,
+        "pairs_compared": 4000,
+        "pairs_straddling_power_of_ten": 1500,
+        "pairs_other_hashseed": 1000,
+        "pairs_other_interpreter_start": 2000,
+        "pairs_with_foreign_objects": 1000,
+        "pairs_other_build_order": 500,
+        "sig_compared": 4000,
+        "sig_renum_compared": 4000,
+        "sig_expr_compared": 4000,
+        "sig_fd_compared": 3000,
+        "sig_fd_lowered_compared": 1500,
+        "straddle:Constant": 800,
+        "straddle:Mesh": 100,
+        "straddle:Index": 400,
+        "straddle:Label": 100,
+        "straddle:Coefficient": 800,
     },
     "thorough": {
-        "recipes": 1200,
-        "pairs_compared": 60000,
-        "pairs_straddling_power_of_ten": 20000,
-        "pairs_other_hashseed": 8000,
-        "pairs_with_foreign_objects": 8000,
-        "pairs_other_build_order": 3000,
-        "sig_compared": 60000,
-        "sig_fd_compared": 45000,
-        "straddle:Constant": 6000,
-        "straddle:Mesh": 1000,
-        "straddle:Index": 3000,
-        "straddle:Label": 1000,
-        "straddle:Coefficient": 6000,
+        "recipes": 1300,
+        "pairs_compared": 70000,
+        "pairs_straddling_power_of_ten": 25000,
+        "pairs_other_hashseed": 15000,
+        "pairs_other_interpreter_start": 30000,
+        "pairs_with_foreign_objects": 15000,
+        "pairs_other_build_order": 8000,
+        "sig_compared": 70000,
+        "sig_renum_compared": 70000,
+        "sig_expr_compared": 70000,
+        "sig_fd_compared": 55000,
+        "sig_fd_lowered_compared": 25000,
+        "straddle:Constant": 12000,
+        "straddle:Mesh": 2000,
+        "straddle:Index": 6000,
+        "straddle:Label": 2000,
+        "straddle:Coefficient": 12000,
     },
 }
 
@@ -92,27 +104,31 @@ OBSERVABLES = [
 
 
 def histories(tier):
-    """List of (kind, boundary, hashseed, order) - index 0 is the reference."""
-    H = [("fresh", None, "0", "natural")]
+    """List of (kind, boundary, hashseed, order, driver) - index 0 is the reference.
+
+    One driver process (interpreter start) per distinct (hashseed, driver).
+    """
+    H = [("fresh", None, "0", "natural", "a")]
     if tier == "quick":
-        H += [("fresh", None, s, "natural") for s in ("1", "2", "3")]
-        H += [("fresh", None, "0", "reversed")]
-        H += [("shift", b, "0", "natural") for b in (10, 100, 1000) for _ in range(2)]
-        H += [("noise", None, "0", "natural") for _ in range(2)]
-        H += [("shift+noise", b, "0", "natural") for b in (10, 100, 1000)]
-        H += [("shift+noise", 10, "4", "shuffled"), ("shift+noise", 100, "5", "shuffled")]
+        H += [("fresh", None, s, "natural", "a") for s in ("1", "2", "3")]
+        H += [("fresh", None, "0", "natural", "b"), ("fresh", None, "0", "reversed", "b")]
+        H += [("shift", b, "0", "natural", d) for b in (10, 100, 1000) for d in "ab"]
+        H += [("noise", None, "0", "natural", d) for d in "ab"]
+        H += [("shift+noise", b, "0", "natural", "b") for b in (10, 100, 1000)]
+        H += [("shift+noise", 10, "1", "shuffled", "a"), ("shift+noise", 100, "2", "shuffled", "a"), ("shift+noise", 1000, "3", "shuffled", "a")]
     else:
-        H += [("fresh", None, str(s), "natural") for s in range(1, 11)]
-        H += [("fresh", None, "0", "reversed"), ("fresh", None, "0", "shuffled"), ("fresh", None, "0", "shuffled")]
-        H += [("shift", b, "0", "natural") for b in (10, 100, 1000) for _ in range(7)]
-        H += [("noise", None, "0", "natural") for _ in range(8)]
-        H += [("shift+noise", b, "0", "natural") for b in (10, 100, 1000) for _ in range(4)]
-        H += [("shift+noise", b, str(11 + k), "shuffled") for k, b in enumerate((10, 100, 1000, 10, 100, 1000, 10, 100, 1000))]
+        H += [("fresh", None, str(s), "natural", "a") for s in range(1, 11)]
+        H += [("fresh", None, "0", "natural", "b"), ("fresh", None, "0", "natural", "c")]
+        H += [("fresh", None, "0", "reversed", "a"), ("fresh", None, "0", "shuffled", "b"), ("fresh", None, "0", "shuffled", "c")]
+        H += [("shift", b, "0", "natural", "abc"[k % 3]) for b in (10, 100, 1000) for k in range(6)]
+        H += [("noise", None, "0", "natural", "abc"[k % 3]) for k in range(8)]
+        H += [("shift+noise", b, "0", "natural", "abc"[k % 3]) for b in (10, 100, 1000) for k in range(4)]
+        H += [("shift+noise", b, str(1 + k), "shuffled", "a") for k, b in enumerate((10, 100, 1000, 10, 100, 1000, 10, 100, 1000, 10))]
     return H
 
 
 def history_kind(h):
-    kind, _b, hs, order = h
+    kind, _b, hs, order, driver = h
     differs = []
     if kind != "fresh":
         differs.append("counters")
@@ -120,20 +136,32 @@ def history_kind(h):
         differs.append("hashseed")
     if order != "natural":
         differs.append("build-order")
+    if not differs:
+        return "interpreter-start" if driver != "a" else "same-history"
     if len(differs) == 1:
         return differs[0]
     return "combined"
 
 
-def run_child(recipes, confs, order, hashseed, timeout):
+_CHILD = (
+    "import sys; sys.path.insert(0, sys.argv[1]); import numpy, ufl, ufl.algorithms; "
+    "from vf.c12_procs import child_main; child_main()"
+)
+
+
+def run_driver(recipes, hists, hashseed, timeout, pyc):
+    """One interpreter start; returns {history index: results or None}."""
     env = dict(os.environ)
     env["PYTHONHASHSEED"] = hashseed
     env["PYTHONPATH"] = VERIF_DIR + os.pathsep + env.get("PYTHONPATH", "")
     env["VERIF_REPO"] = REPO_DIR
-    job = json.dumps({"recipes": recipes, "confs": confs, "order": order, "hashseed": hashseed, "canon": True})
+    # byte code of the tree under test is cached in a scratch directory of this case (never in /repo)
+    env.pop("PYTHONDONTWRITEBYTECODE", None)
+    env["PYTHONPYCACHEPREFIX"] = pyc
+    job = json.dumps({"recipes": recipes, "histories": hists, "canon": True})
     try:
         p = subprocess.run(
-            [sys.executable, "-B", "-c", "from vf.c12_procs import child_main; child_main()"],
+            [sys.executable, "-c", _CHILD, REPO_DIR],
             input=job.encode(),
             env=env,
             cwd=VERIF_DIR,
@@ -149,7 +177,7 @@ def run_child(recipes, confs, order, hashseed, timeout):
             if os.path.realpath(os.path.dirname(r["ufl"])) != os.path.realpath(os.path.join(REPO_DIR, "ufl")):
                 raise HarnessError("child imported ufl from " + r["ufl"])
             return r["res"]
-    raise HarnessError("child process gave no result (rc=%s): %s" % (p.returncode, p.stderr.decode(errors="replace")[-1500:]))
+    raise HarnessError("driver process gave no result (rc=%s): %s" % (p.returncode, p.stderr.decode(errors="replace")[-1500:]))
 
 
 # ---------------------------------------------------------------- diagnostics (mechanism of a difference)
@@ -158,6 +186,18 @@ _NOT_A_NODE = {
     "Mesh", "MeshView", "MeshSequence", "FunctionSpace", "MixedFunctionSpace", "DualSpace", "TensorProductFunctionSpace",
     "i", "fixed", "int", "str", "tuple", "list", "py", "dict", "float", "set", "cargo",
 }
+_GQ = None
+
+
+def _class_label(name):
+    """Geometric quantities are one family of terminals: label them as such."""
+    global _GQ
+    if _GQ is None:
+        import ufl.classes as uc
+        from ufl.geometry import GeometricQuantity
+
+        _GQ = {n for n in dir(uc) if isinstance(getattr(uc, n), type) and issubclass(getattr(uc, n), GeometricQuantity)}
+    return "GeometricQuantity." + name if name in _GQ else name
 
 
 def _tag(x):
@@ -166,57 +206,82 @@ def _tag(x):
     return None
 
 
-def first_difference(a, b):
-    """Mechanism name from the first difference of two canon trees."""
-    stack = []
+def _norm(x):
+    """Order-insensitive normal form (every list sorted recursively)."""
+    if isinstance(x, list):
+        return sorted((_norm(c) for c in x), key=lambda c: json.dumps(c, sort_keys=True))
+    return x
+
+
+def _first_diff_tag(a, b):
+    """Class name of the innermost expression node around the first difference of two trees."""
+    tags = []
     x, y = a, b
     while True:
-        stack.append((x, y))
+        ta, tb = _tag(x), _tag(y)
+        if ta is not None and tb is not None:
+            tags.append((ta, tb))
         if isinstance(x, list) and isinstance(y, list) and len(x) == len(y):
             k = next((k for k in range(len(x)) if x[k] != y[k]), None)
-            if k is None:
-                return "no-difference"
-            if k == 0 and isinstance(x[0], str) and isinstance(y[0], str):
+            if k is None or (k == 0 and isinstance(x[0], str)):
                 break
             x, y = x[k], y[k]
             continue
         break
-    # innermost tagged enclosing nodes
-    tags = []
-    for xa, ya in stack:
-        ta, tb = _tag(xa), _tag(ya)
-        if ta is not None and tb is not None:
-            tags.append((ta, tb))
-    leaf = None
     for ta, tb in reversed(tags):
         if ta not in _NOT_A_NODE and tb not in _NOT_A_NODE:
-            leaf = ta if ta == tb else "|".join(sorted((ta, tb)))
-            break
-    # an ancestor whose children are a permutation of each other => operand order
-    what = "structure"
-    for xa, ya in reversed(stack):
-        if isinstance(xa, list) and isinstance(ya, list) and len(xa) == len(ya) and len(xa) > 1:
-            sa = sorted(json.dumps(c, sort_keys=True) for c in xa)
-            sb = sorted(json.dumps(c, sort_keys=True) for c in ya)
-            if sa == sb and xa != ya:
-                what = "operand-order"
-                t = _tag(xa)
-                if t == "Form":
-                    what = "integral-order"
-                break
-    return f"{what}/{leaf}"
+            return _class_label(ta) if ta == tb else "|".join(sorted((_class_label(ta), _class_label(tb))))
+    return "?"
+
+
+def _find_swap(a, b, depth=0):
+    """Deepest place where the two trees hold the same children in a different order.
+
+    Returns ('operand-order'|'integral-order', class at which the two swapped children first differ) or
+    ('structure', class around the first difference).
+    """
+    if a == b:
+        return None
+    if not (isinstance(a, list) and isinstance(b, list) and len(a) == len(b)) or _tag(a) != _tag(b):
+        return ("structure", _first_diff_tag(a, b))
+    na = [json.dumps(_norm(c), sort_keys=True) for c in a]
+    nb = [json.dumps(_norm(c), sort_keys=True) for c in b]
+    if sorted(na) == sorted(nb):
+        used = [False] * len(b)
+        pairs = []
+        for k, c in enumerate(a):
+            # prefer the same position, else the first unused child with the same normal form
+            j = k if (not used[k] and nb[k] == na[k]) else next((j for j in range(len(b)) if not used[j] and nb[j] == na[k]), None)
+            if j is None:
+                return ("structure", _first_diff_tag(a, b))
+            used[j] = True
+            pairs.append((c, b[j]))
+        for x, y in pairs:
+            if x != y:
+                r = _find_swap(x, y, depth + 1)
+                if r is not None:
+                    return r
+        k = next(k for k in range(len(a)) if a[k] != b[k])
+        what = "integral-order" if _tag(a[k]) == "Integral" else "operand-order"
+        return (what, _first_diff_tag(a[k], b[k]))
+    k = next(k for k in range(len(a)) if a[k] != b[k])
+    return _find_swap(a[k], b[k], depth + 1) or ("structure", _first_diff_tag(a, b))
 
 
 def mechanism(ref, obs):
     ca, cb = ref.get("canon"), obs.get("canon")
     if isinstance(ca, list) and isinstance(cb, list):
         if ca != cb:
-            return first_difference(ca, cb)
+            try:
+                what, cls = _find_swap(ca, cb)
+            except RecursionError:
+                return "structure/?"
+            return f"{what}/{cls}"
         ta, tb = ref.get("thd"), obs.get("thd")
         if isinstance(ta, dict) and isinstance(tb, dict):
             bad = sorted(k for k in set(ta) | set(tb) if ta.get(k) != tb.get(k))
             if bad:
-                return "hashdata/" + bad[0]
+                return "hashdata/" + _class_label(bad[0])
         return "same-structure-same-terminal-data"
     return "undiagnosed"
 
@@ -238,11 +303,10 @@ def case(ctx, i, rng):
         recipes.append(r)
     digs = [recipe_digest(r) for r in recipes]
     H = histories(tier)
-    timeout = 60 + 6 * R
-    results = []
     confs_all = []
+    drivers = {}
     for hi, h in enumerate(H):
-        kind, boundary, hashseed, order = h
+        kind, boundary, hashseed, order, driver = h
         crng = random.Random(rng.getrandbits(64))
         confs = [gen_conf(crng, kind, boundary, r["nown"]) for r in recipes]
         idx = list(range(R))
@@ -251,15 +315,24 @@ def case(ctx, i, rng):
         elif order == "shuffled":
             crng.shuffle(idx)
         confs_all.append(confs)
-        if hi > 0 and ctx.time_left() < 5:
-            ctx.count("histories_not_run_time_budget")
-            results.append(None)
-            continue
-        res = run_child(recipes, confs, idx, hashseed, timeout)
-        ctx.count("child_processes")
-        if res is None:
-            ctx.count("child_timeouts")
-        results.append(res)
+        drivers.setdefault((hashseed, driver), []).append({"hi": hi, "confs": confs, "order": idx})
+    results = [None] * len(H)
+    pyc = tempfile.mkdtemp(prefix="vf_c12_pyc_")
+    try:
+        for n, ((hashseed, driver), hists) in enumerate(drivers.items()):
+            if n > 0 and ctx.time_left() < 5:
+                ctx.count("histories_not_run_time_budget", len(hists))
+                continue
+            res = run_driver(recipes, hists, hashseed, 90 + 2 * R * len(hists), pyc)
+            ctx.count("driver_processes")
+            if res is None:
+                ctx.count("driver_timeouts")
+                continue
+            for hst in hists:
+                results[hst["hi"]] = res.get(str(hst["hi"]))
+                ctx.count("forked_processes")
+    finally:
+        shutil.rmtree(pyc, ignore_errors=True)
     ref = results[0]
     if ref is None:
         ctx.count("cases_skipped_reference_timeout")
@@ -303,6 +376,7 @@ def case(ctx, i, rng):
             _check_counts(b, conf, h)
             ctx.count("pairs_compared")
             ctx.add_distinct((digs[k], hi))
+            ctx.covered("history_kinds", hk)
             # ---- what made this pair non-trivial
             strad = []
             for cls in COUNTED:
@@ -314,12 +388,14 @@ def case(ctx, i, rng):
                 ctx.count("pairs_straddling_power_of_ten")
             if h[2] != "0":
                 ctx.count("pairs_other_hashseed")
+            if (h[2], h[4]) != ("0", "a"):
+                ctx.count("pairs_other_interpreter_start")
             if b.get("noise_made"):
                 ctx.count("pairs_with_foreign_objects")
                 ctx.count("foreign_objects_created", b["noise_made"])
             if h[3] != "natural":
                 ctx.count("pairs_other_build_order")
-            if k == 0 and hi in (5, 12):
+            if k == 0 and hi in (6, 15):
                 ctx.sample(
                     {
                         "recipe": digs[k], "statements": len(r["prog"]), "own_objects": r["nown"], "features": r["features"],
@@ -338,11 +414,10 @@ def case(ctx, i, rng):
                 va, vb = a.get(name), b.get(name)
                 ra = isinstance(va, str) and va.startswith("raised:")
                 rb = isinstance(vb, str) and vb.startswith("raised:")
-                if ra and rb:
-                    if va == vb:
-                        ctx.count(name + "_rejected_in_both")
-                        continue
-                if ra != rb or (ra and rb):
+                if ra and rb and va == vb:
+                    ctx.count(name + "_rejected_in_both")
+                    continue
+                if ra or rb:
                     ctx.violation(
                         f"C12/{label}/{hk}/outcome-differs",
                         f"recipe {digs[k]}: {name} is {str(va)[:40]} with fresh counters but {str(vb)[:40]} under history {h} start={conf['start']}",
@@ -353,13 +428,14 @@ def case(ctx, i, rng):
                 if va == vb:
                     ctx.count(name + "_equal")
                     continue
+                ctx.count(name + "_different")
                 if mech is None:
                     mech = mechanism(a, b)
                 m = mech
                 if name in ("sig_fd", "sig_fd_lowered") and not mech.startswith(("operand-order", "structure", "integral-order")):
-                    if a.get("sig") == b.get("sig"):
-                        m = "arises-in-preprocessing"
-                # one report per (pair, mechanism family): the later observables repeat the first one
+                    # the built form is the same tree: whatever differs was introduced by the preprocessing
+                    m = "arises-in-preprocessing"
+                # one report per (pair, family of observables, mechanism): later observables repeat the first
                 fam = ("fd" if name.startswith("sig_fd") else "sig", m)
                 if fam in reported:
                     ctx.count("differences_repeating_an_earlier_observable")
